@@ -149,7 +149,9 @@ def _box_safe_one(prog, fi, ff, si, a: ast.AST, prob: str, raw: ast.AST):
     if U(base) == "self.xn" and prog.enclosing_class(fi) is not None and prog.enclosing_class(fi).name == "StepResult":
         return True, "clamped StepResult.xn"
     # (b) np.clip(E, P.var_lb, P.var_ub) with the bounds of the same problem
-    if np_call(a, "clip") and len(a.args) >= 3 and kwarg(a, "out") is None:
+    o_ = kwarg(a, "out") if isinstance(a, ast.Call) else None
+    fresh_out = o_ is None or (np_call(o_, "empty_like", "empty", "zeros_like", "zeros") )   # np.clip returns `out`: a fresh array is fine
+    if np_call(a, "clip") and len(a.args) >= 3 and fresh_out:
         lb, ub = U(a.args[1]), U(a.args[2])
         if lb == f"{prob}.var_lb" and ub == f"{prob}.var_ub":
             return True, "np.clip against the bounds of the same problem"
